@@ -660,13 +660,14 @@ def u_wrapper_toplevel(root):
     c.ensures.append(lambda vw: [("IndexedFit(data, model); error / error_cor (correlated) / error_rel (relative) / error_cor_rel (both) forwarded in that meaning; then the generic pipeline",
                                   z3.BoolVal(top(vw.post) == [("IndexedFit", ("data", "model_function"), {})] + gen4("IndexedFit") + [("run", ("IndexedFit",) + tuple(common), {})]))])
     eng.verify(WRAP, "indexed_fit", None, lambda e, st, me_: {n_: K(n_) for n_ in names_idx}, contract=c)
-    for ga in ("None+errors", "None+no-errors", "True", "False"):
+    ERRKW = ("error", "error_rel", "error_cor", "error_cor_rel")
+    for ga in ("None+errors", "None+no-errors", "True", "False") + tuple("None+only:" + k_ for k_ in ERRKW):
         for model_given in (True, False):
             c = Contract(WRAP, "hist_fit")
 
             def post(vw, ga=ga, model_given=model_given):
-                cost = "gauss_approximation" if ga in ("None+errors", "True") else "poisson"
-                e_or_none = (lambda n_: n_) if ga != "None+no-errors" else (lambda n_: "None")
+                cost = "gauss_approximation" if ga in ("None+errors", "True") or ga.startswith("None+only:") else "poisson"          # ANY one uncertainty keyword is enough
+                e_or_none = (lambda n_: "None") if ga == "None+no-errors" else (lambda n_: n_ if n_ == ga.split(":")[1] else "None") if ga.startswith("None+only:") else (lambda n_: n_)
                 exp = [("HistContainer", ("n_bins", "bin_range", "bin_edges", "data"), {}), ("HistFit", ("HistContainer",) + (("model_function",) if model_given else ()), {"cost_function": cost, "density": "density"})]
                 exp += [(t_, tuple(e_or_none(x) if x in ("error", "error_cor", "error_rel", "error_cor_rel") else x for x in a_), k_) for t_, a_, k_ in gen4("HistFit")]
                 exp.append(("run", ("HistFit",) + tuple(common), {}))
@@ -681,6 +682,10 @@ def u_wrapper_toplevel(root):
                 if ga == "None+no-errors":
                     for n_ in ("error", "error_rel", "error_cor", "error_cor_rel"):
                         a[n_] = VNone()
+                if ga.startswith("None+only:"):
+                    for n_ in ERRKW:
+                        if n_ != ga.split(":")[1]:
+                            a[n_] = VNone()
                 return a
             eng.verify(WRAP, "hist_fit", None, init, contract=c, tag=f"[gauss_approximation={ga},model={'given' if model_given else 'default'}]")
     for w, cls, ctor_args in (("unbinned_fit", "UnbinnedFit", ("data", "model_function")), ("custom_fit", "CustomFit", ("cost_function",))):
